@@ -129,3 +129,18 @@ func EdBlindPublicKey(pub, blind, context []byte) ([]byte, bool) {
 	}
 	return EdScalarMult(EdBlindScalar(blind, context), a).Encode(), true
 }
+
+// EdBase returns the Ed25519 base point (y = 4/5, x positive... i.e. even).
+func EdBase() EdPoint {
+	y := new(big.Int).Mul(big.NewInt(4), new(big.Int).ModInverse(big.NewInt(5), edP))
+	y.Mod(y, edP)
+	p, _ := EdDecode(reverse(y.FillBytes(make([]byte, 32))))
+	return p
+}
+
+func reverse(b []byte) []byte {
+	for i, j := 0, len(b)-1; i < j; i, j = i+1, j-1 {
+		b[i], b[j] = b[j], b[i]
+	}
+	return b
+}
